@@ -390,7 +390,7 @@ func (c *Ctx) checkParseDispatch(rule string) {
 		cut := map[edge]bool{}
 		for _, b := range po.Blocks {
 			for _, in := range b.Instrs {
-				if bo, isB := in.(*ssa.BinOp); isB && bo.Op == token.EQL && strings.HasSuffix(c.Path(bo.X, nil), ".Operation") {
+				if bo, isB := in.(*ssa.BinOp); isB && bo.Op == token.EQL && (strings.HasSuffix(c.Path(bo.X, nil), ".Operation") || strings.HasSuffix(c.InlPath(bo.X, nil), ".Operation")) {
 					for _, e := range boolEdges(bo, true) {
 						cut[e] = true
 					}
